@@ -26,6 +26,9 @@ type served struct {
 func serve(c *Case, forceSync bool) *served {
 	w := &world{c: c, forceSync: forceSync}
 	out := &served{w: w}
+	if !forceSync {
+		curWorld.Store(w)
+	}
 	q, _ := json.Marshal(map[string]string{"query": c.Query})
 	req := httptest.NewRequest("POST", "/graphql", bytes.NewReader(q))
 	req.Header.Set("Content-Type", "application/json")
